@@ -292,6 +292,12 @@ type syRig struct {
 	nextC   int64
 	armed   map[string]*syThread
 	yieldF  func(pt string) // free-running yield policy
+	active  atomic.Int64    // stream handlers entered and not yet returned
+	// server-side backlog estimate (see wait): envelopes written by the client that are not unary requests / opens,
+	// envelopes still in flight towards the server, receives completed by handlers
+	c2sNoQueue atomic.Int64
+	c2sTotal   atomic.Int64
+	hrecvs     atomic.Int64
 }
 
 func syTag(ctx context.Context, key string) int64 {
@@ -319,7 +325,14 @@ func newSyRig(topo int, byRef, lock bool) *syRig {
 	r.eps = append(r.eps, l.C, l.S)
 	// the tap on the client's transport
 	cw, sw := l.C.OnWrite, l.S.OnWrite
-	l.C.OnWrite = func(e *Rpc) { r.hist.add("WC2S " + syWenv(e)); cw(e) }
+	l.C.OnWrite = func(e *Rpc) {
+		r.hist.add("WC2S " + syWenv(e))
+		r.c2sTotal.Add(1)
+		if strings.HasSuffix(e.GetHeader().GetMethod(), "Unary") || (e.GetBody() == nil && e.GetTrailer() == nil) {
+			r.c2sNoQueue.Add(1) // unary requests and stream opens do not go through a stream's queue at the server
+		}
+		cw(e)
+	}
 	l.S.OnWrite = func(e *Rpc) { r.hist.add("WS2C " + syWenv(e)); sw(e) }
 	switch topo {
 	case 0:
@@ -439,6 +452,8 @@ func (r *syRig) streamH(kind string, s grpc.ServerStream) error {
 	p, ok := r.hprogs[k]
 	r.mu.Unlock()
 	r.hist.add(fmt.Sprintf("HStS %d", k))
+	r.active.Add(1)
+	defer r.active.Add(-1)
 	if !ok {
 		r.hist.add(fmt.Sprintf("HRet %d %d", k, 2))
 		return status.Error(codes.Unknown, "no program for this stream")
@@ -449,6 +464,7 @@ func (r *syRig) streamH(kind string, s grpc.ServerStream) error {
 		var m wrapperspb.BytesValue
 		err := s.RecvMsg(&m)
 		r.hist.add(fmt.Sprintf("HRecvR %d %s", k, syRes(err, m.Value)))
+		r.hrecvs.Add(1)
 		return m.Value, err
 	}
 	send := func(b []byte) error {
@@ -700,10 +716,82 @@ type syStep struct {
 	evs []string
 }
 
+// wait brings the system to quiescence after an action. synctest.Wait needs every goroutine durably blocked, and
+// a goroutine waiting for a sync.Mutex is not: the server's read loop keeps the registry mutex while it waits for
+// room in a stream's queue (cap 1), and a handler that returns meanwhile waits for that mutex in unregisterStream
+// (it is released as soon as the other stream's handler receives: head-of-line blocking, not a deadlock). Whenever
+// two or more stream envelopes delivered to the server are not yet received by a handler this can be the case,
+// and quiescence is detected from the goroutine dump instead (durably blocked or waiting for a mutex).
+func (r *syRig) wait() {
+	inflight, _ := r.link.InFlight()
+	backlog := r.c2sTotal.Load() - r.c2sNoQueue.Load() - int64(inflight) - r.hrecvs.Load()
+	if backlog < 2 {
+		synctest.Wait()
+		syLastDump = "synctest.Wait"
+		return
+	}
+	buf := make([]byte, 4<<20)
+	prev, prevLen := "", -1
+	for spins := 0; ; spins++ {
+		n := runtime.Stack(buf, true)
+		fp, quiet := syBubbleQuiet(string(buf[:n]))
+		hl := r.hist.mark()
+		// two consecutive identical all-blocked pictures with no event in between
+		if quiet && fp == prev && hl == prevLen {
+			syLastDump = string(buf[:n])
+			return
+		}
+		if quiet {
+			prev, prevLen = fp, hl
+		} else {
+			prev, prevLen = "", -1
+		}
+		for i := 0; i < 4; i++ {
+			runtime.Gosched()
+		}
+		if spins > 2000000 {
+			panic("sy rig: no quiescence")
+		}
+	}
+}
+
+var syLastDump string
+
+// syBubbleQuiet: every goroutine of a bubble other than the caller is durably blocked or waits for a mutex;
+// the fingerprint is the list of their header lines and top frames.
+func syBubbleQuiet(dump string) (string, bool) {
+	var fp strings.Builder
+	first := true
+	for _, g := range strings.Split(dump, "\n\n") {
+		nl := strings.IndexByte(g, '\n')
+		if nl < 0 {
+			nl = len(g)
+		}
+		h := g[:nl]
+		if !strings.HasPrefix(h, "goroutine ") {
+			continue
+		}
+		if first { // the caller
+			first = false
+			continue
+		}
+		if !strings.Contains(h, "synctest bubble") {
+			continue
+		}
+		if strings.Contains(h, "(durable") || strings.Contains(h, "sync.Mutex.Lock") {
+			fp.WriteString(h)
+			continue
+		}
+		return "", false
+	}
+	return fp.String(), true
+}
+
 // runSchedule performs actions chosen by choose among the enabled ones until none is enabled
 // (or choose returns -1, or maxSteps is reached).
 func (r *syRig) runSchedule(choose func(step int, en []syAct) int, maxSteps int) (steps []syStep, complete bool) {
 	synctest.Wait()
+	last := r.hist.mark()
 	for n := 0; n < maxSteps; n++ {
 		en := r.enabled()
 		if len(en) == 0 {
@@ -714,11 +802,20 @@ func (r *syRig) runSchedule(choose func(step int, en []syAct) int, maxSteps int)
 			break
 		}
 		m := r.hist.mark()
+		// the events of a step are everything recorded until the next action starts (in the rare case that the
+		// dump-based quiescence detection of wait() returned early, nothing is lost or misattributed to a later step)
+		if len(steps) > 0 {
+			steps[len(steps)-1].evs = r.hist.since(last)
+		}
+		last = m
 		r.do(en[i])
-		synctest.Wait()
-		steps = append(steps, syStep{en[i], r.hist.since(m)})
+		r.wait()
+		steps = append(steps, syStep{en[i], nil})
 	}
-	complete = len(r.enabled()) == 0
+	if len(steps) > 0 {
+		steps[len(steps)-1].evs = r.hist.since(last)
+	}
+	complete = len(r.enabled()) == 0 && r.active.Load() == 0
 	for _, th := range r.threads {
 		if th.busy.Load() || th.pc < len(th.prog) {
 			complete = false
